@@ -39,7 +39,8 @@ def plan(tier):
         roles = params.get("sequence") or params.get("roles", ",".join(rt.ROLES_FW if params.get("firmware") else rt.ROLES_E))
         roles = sorted(set(roles.split(",")))
         out.append(Scenario(name, scen, params=params,
-                            cover=["role-" + r for r in roles] + ["episode-open", "filter-synthesised-commands"],
+                            cover=["role-" + r for r in roles] + (["episode-open", "filter-synthesised-commands"]
+                                                                  if not params.get("sequence") else []),
                             bounds=dict(params, roles=roles), excludable=rt.EXCLUDABLE))
     add("e-only-k3", K=3, firmware=0, kinds="rd")
     if tier == "thorough":
